@@ -132,7 +132,7 @@ class Ledger:
         if os.environ.get("VERIF_WRITE_EXPECTED"):
             os.makedirs(os.path.dirname(exp_path), exist_ok=True)
             with open(exp_path, "w") as fh:
-                json.dump(sorted({o.name for o in self.obs if o.tier in ("P", "B")}), fh, indent=0)
+                json.dump(sorted({o.name for o in self.obs if o.tier in ("P", "B") and o.backend not in ("timeout", "not-generated")}), fh, indent=0)
         elif os.path.exists(exp_path):
             have = {o.name for o in self.obs}
             missing = [n for n in json.load(open(exp_path)) if n not in have]
